@@ -50,6 +50,19 @@ theorem slice_is_the_named_rows (source : Table) (h : WFGenome source) (inner : 
       source.filter (fun r => r.chrom == q.chrom && selFilter (some q.s) (some q.e) inner r) :=
   hitsOf_exact source h inner q hq
 
+/-! ### `by_ranges` -/
+
+/-- for well-formed tables of any number of chromosomes: each query row, in visiting order, paired with exactly the
+    rows of its chromosome the property names (clipped in trim mode); keep_empty off drops exactly the pairs whose
+    selection is empty (a chromosome missing from the queried table gives empty selections) -/
+theorem by_ranges_is_the_named_rows (table other : Table) (mode : Mode) (ke : Bool) (h : WFGenome table)
+    (hq : ∀ b ∈ other, 0 ≤ b.s) :
+    byRanges table other mode ke =
+      ((queriesInOrder other).map (fun b =>
+        (b, rangeSpec (table.filter (fun r => r.chrom == b.chrom)) (some b.s) (some b.e) mode))).filter
+        (fun p => !p.2.isEmpty || ke) :=
+  byRanges_exact table other mode ke h hq
+
 /-! ### `intersection` -/
 
 /-- for ANY two tables, all three modes: the concatenation of each query's selection among the rows of its own
@@ -97,6 +110,15 @@ theorem into_ranges_value (r0 : Row) (rest dest : Table) (col : Row → Val) (d 
       (queriesInOrder dest).map (fun q =>
         seriesToValue d (pickSummary s (col r0)) ((hitsOf (r0 :: rest) false q).map col)) :=
   intoRanges_per_query r0 rest dest col d s
+
+/-- … in the property's own words (and those of the oracle the driver evaluates on the REAL output): the rows hit
+    are those of the query's chromosome with `end > query start` and `start < query end` -/
+theorem into_ranges_value_in_property_words (r0 : Row) (rest dest : Table) (col : Row → Val) (d : Val)
+    (s : Summary) (h : WFGenome (r0 :: rest)) (hq : ∀ q ∈ dest, 0 ≤ q.s) :
+    intoRanges (r0 :: rest) dest col d s =
+      (queriesInOrder dest).map (fun q =>
+        seriesToValue d (pickSummary s (col r0)) ((selectSpec (r0 :: rest) q.chrom q.s q.e .outer).map col)) :=
+  intoRanges_spec r0 rest dest col d s h hq
 
 /-- the default where nothing overlaps -/
 theorem value_default_when_no_hit (d : Val) (f : List Val → Val) : seriesToValue d f [] = d := rfl
